@@ -882,3 +882,141 @@ def pulse_family(rng, rep=0):
         build(4, dest_k, [k for k in range(4) if k not in (dest_k, by)], 'reverse' if dest_k % 2 == 0 else 'pop',
               ['none', 'pulse2'][dest_k % 2])
     return out
+
+# ----------------------------------------------------------------------------------------------------------------
+# systematic family around integration epochs in which SEVERAL contemporaneous demes change size, each with its own
+# parameters: the importer builds one size function per deme and per integration epoch (closures over the start / end
+# sizes of that deme); a slip that lets two of them share a parameter - a value hoisted out of the closure and bound late,
+# the sizes of the wrong deme, the duration of another epoch - is invisible when only one deme of the epoch changes size
+# and when a graph is compared with transformed copies of itself.
+
+SIZEFN_2 = [('linear', 'linear'), ('linear', 'exponential'), ('exponential', 'linear'), ('exponential', 'exponential'),
+            ('linear', 'constant'), ('constant', 'linear')]
+SIZEFN_3 = [('linear', 'linear', 'linear'), ('linear', 'exponential', 'linear'), ('exponential', 'linear', 'exponential'),
+            ('exponential', 'exponential', 'exponential'), ('linear', 'constant', 'linear'), ('constant', 'linear', 'linear'),
+            ('linear', 'linear', 'constant'), ('exponential', 'constant', 'linear')]
+
+def _distinct_growths(rng, fns, k0):
+    """[(s0, s1)] per deme: directions alternate (down, up, down, ... starting with k0's parity), the absolute changes s1 - s0
+    and the ratios s1 / s0 are pairwise different; constant demes get (s, s)"""
+    lo = [0.5, 0.75, 1.0, 1.25, 1.5]; hi = [2.0, 2.5, 3.0, 4.0, 6.0]
+    for _ in range(200):
+        out = []
+        for i, fn in enumerate(fns):
+            if fn == 'constant':
+                s = _size(rng); out.append((s, s)); continue
+            a, b = rng.choice(lo), rng.choice(hi)
+            out.append((b, a) if (i + k0) % 2 == 0 else (a, b))
+        ch = [(s1 - s0, s1 / s0) for (s0, s1), fn in zip(out, fns) if fn != 'constant']
+        if len({c[0] for c in ch}) == len(ch) and len({c[1] for c in ch}) == len(ch):
+            return out
+    raise ValueError('no distinct growth parameters found')
+
+def sizefn_family(rng, rep=0):
+    """2 and 3 demes alive whose size functions over one integration epoch are ALL non-constant with pairwise different
+    parameters (every combination of SIZEFN_2 / SIZEFN_3: linear/linear, linear/exponential, exponential/exponential, ...,
+    and linear next to constant), directions alternating (the first deme shrinks while the last grows and the other way
+    round), in two layouts: `aligned` (every deme has one epoch from its start to the present) and `staggered` (the
+    second deme changes to another growth epoch half way, so that the integration epochs cut the first deme's epoch and
+    every piece has its own start / end sizes); with and without migration, sampled in rotating orders and as a subset,
+    in generations and years, Ne given or not.  Each with a hand-written native program (family_native)."""
+    out = []
+    rate = lambda: rng.choice([1 / 32, 1 / 16, 3 / 32, 1 / 8])
+    def finish(nd, fns, layout, demes, k):
+        migs = []
+        if k % 3 == 1:
+            migs.append({'demes': ['A', 'B'], 'rate': rate()})
+        elif k % 3 == 2:
+            migs.append({'source': 'A', 'dest': 'B', 'rate': rate()})
+            if nd == 3:
+                migs.append({'source': 'C', 'dest': 'A', 'rate': rate()})
+        spec = {'demes': demes, 'migs': migs}
+        alive = ['A', 'B', 'C'][:nd]
+        mode = (k + rep) % 4
+        if mode == 1:
+            alive = alive[::-1]
+        elif mode == 2:
+            alive = alive[1:] + alive[:1]
+        elif mode == 3:
+            alive = alive[:1] if nd == 2 else [alive[2], alive[0]]          # a subset: the others are integrated, then removed
+        samples = [(n, 0.0) for n in alive]
+        tag = 'sizefn-family:%d-%s-%s' % (nd, '/'.join(fns), layout)
+        c = _fam_case(rng, spec, samples, tag, units=(k % 4 == 3), Ne=rng.choice([2.0, 1.5, 3.0]) if k % 5 == 2 else None)
+        if k % 2 == 0:
+            c['times'] = None
+        out.append(c)
+    k = 0
+    for fns in SIZEFN_2:
+        for layout in ('aligned', 'staggered'):
+            T0 = rng.choice([1.0, 1.5, 2.0]); N0 = _size(rng)
+            (a0, a1), (b0, b1) = _distinct_growths(rng, fns, k + rep)
+            A = [(0.0, a0, a1, fns[0])]
+            if layout == 'aligned':
+                B = [(0.0, b0, b1, fns[1])]
+            else:
+                Tb = T0 / 2
+                f2 = fns[1] if fns[1] != 'constant' else 'linear'
+                b2 = _size_other(rng, b1)
+                B = [(Tb, b0, b1, fns[1]), (0.0, b1, b2, f2)]
+            demes = [{'name': 'R', 'parent': None, 'start': INF, 'epochs': [(T0, N0, N0, 'constant')]},
+                     {'name': 'A', 'parent': 'R', 'start': T0, 'epochs': A},
+                     {'name': 'B', 'parent': 'R', 'start': T0, 'epochs': B}]
+            finish(2, fns, layout, demes, k); k += 1
+    for fns in SIZEFN_3:
+        layout = 'aligned' if (SIZEFN_3.index(fns) + rep) % 2 == 0 else 'staggered'
+        T0 = rng.choice([1.5, 2.0]); Tc = T0 / 2; N0 = _size(rng)
+        (a0, a1), (b0, b1), (c0, c1) = _distinct_growths(rng, fns, k + rep)
+        A = [(0.0, a0, a1, fns[0])]
+        B = [(0.0, b0, b1, fns[1])]
+        if layout == 'aligned':
+            C = [(0.0, c0, c1, fns[2])]
+        else:
+            f2 = fns[2] if fns[2] != 'constant' else 'exponential'
+            C = [(Tc / 2, c0, c1, fns[2]), (0.0, c1, _size_other(rng, c1), f2)]
+        demes = [{'name': 'R', 'parent': None, 'start': INF, 'epochs': [(T0, N0, N0, 'constant')]},
+                 {'name': 'A', 'parent': 'R', 'start': T0, 'epochs': A},
+                 {'name': 'B', 'parent': 'R', 'start': T0, 'epochs': B},
+                 {'name': 'C', 'parent': 'B', 'start': Tc, 'epochs': C}]
+        finish(3, fns, layout, demes, k); k += 1
+    return out
+
+def sizefn_epoch_classes(orig, tmin=0.0):
+    """for a RESOLVED graph: the integration epochs (stretches between consecutive times of the graph, more ancient than tmin) in
+    which at least two demes are alive, as (number alive, sorted size-function kinds, all parameters pairwise different?,
+    a linear deme listed before another linear deme with a different slope?)"""
+    times = set()
+    for d in orig['demes']:
+        for e in d['epochs']:
+            for x in (e['start_time'], e['end_time']):
+                if x != INF:
+                    times.add(x)
+    for m in orig['migrations']:
+        for x in (m['start_time'], m['end_time']):
+            if x != INF:
+                times.add(x)
+    for p in orig['pulses']:
+        times.add(p['time'])
+    ts = sorted(t for t in times if t >= tmin)
+    if tmin not in ts:
+        ts = [tmin] + ts
+    out = []
+    for lo, hi in zip(ts[:-1], ts[1:]):
+        mid = (lo + hi) / 2
+        live = []
+        for d in orig['demes']:
+            for e in d['epochs']:
+                if e['start_time'] > mid >= e['end_time']:
+                    fn = e['size_function']
+                    if fn == 'constant' or e['start_size'] == e['end_size']:
+                        live.append(('constant', 0.0, 1.0))
+                    else:
+                        span = e['start_time'] - e['end_time']
+                        live.append((fn, (e['end_size'] - e['start_size']) / span, (e['end_size'] / e['start_size']) ** (1 / span)))
+        if len(live) < 2:
+            continue
+        kinds = tuple(sorted(x[0] for x in live))
+        nonc = [x for x in live if x[0] != 'constant']
+        distinct = len({x[1] for x in nonc}) == len(nonc) and len({x[2] for x in nonc}) == len(nonc)
+        lin = [x[1] for x in live if x[0] == 'linear']
+        out.append((len(live), kinds, distinct, len(lin) >= 2 and len(set(lin)) >= 2))
+    return out
